@@ -101,7 +101,8 @@ def oracle(line, out):
         if m.group(2) != m.group(3):
             return ('roundtrip', 'parsed-back cookie differs: wrote %r; built [%s]; parsed [%s]' % (unhx(m.group(1)), m.group(2), m.group(3)))
     elif w[0] == 'jar' and out.startswith('ok'):
-        m = re.fullmatch(r'ok n=(\d+) pre=(\S+) post=(\S+)', out)
+        m = re.fullmatch(r'ok n=(\d+) pre=(\S+) post=(\S+) lookup=(\S+)', out)
+        if m.group(4) != 'ok': return ('jar-lookup', 'the look-up interface of the jar disagrees with its iteration: ' + m.group(4))
         # the pairs the header lists (only for well-formed "; "-separated headers made of cookie-octets)
         pairs = set()
         wf = True
